@@ -158,6 +158,8 @@ def run_int_options(R):
     cases = [("Cleaner(penalty_per_timestep=1)", lambda: E.Cleaner(generator=g["CleanerGen"](num_rows=3, num_cols=5, num_agents=2), penalty_per_timestep=1)),
              ("Cleaner(penalty_per_timestep=0)", lambda: E.Cleaner(generator=g["CleanerGen"](num_rows=3, num_cols=5, num_agents=2), penalty_per_timestep=0)),
              ("LevelBasedForaging(penalty=1)", lambda: E.LevelBasedForaging(generator=g["LBFGen"](grid_size=5, fov=2, num_agents=2, num_food=1), penalty=1)),
+             ("LevelBasedForaging(penalty=1, normalize_reward=False)", lambda: E.LevelBasedForaging(generator=g["LBFGen"](grid_size=5, fov=2, num_agents=2, num_food=1), penalty=1, normalize_reward=False)),
+             ("LevelBasedForaging(penalty=0, normalize_reward=False, grid_observation=True)", lambda: E.LevelBasedForaging(generator=g["LBFGen"](grid_size=5, fov=1, num_agents=3, num_food=2), penalty=0, normalize_reward=False, grid_observation=True)),
              ("Knapsack(total_budget=2)", lambda: E.Knapsack(generator=g["KGen"](num_items=4, total_budget=2))),
              ("CVRP(max_capacity=7, max_demand=3)", lambda: E.CVRP(generator=g["CVRPGen"](num_nodes=4, max_capacity=7, max_demand=3))),
              ("PacMan(time_limit=7)", lambda: E.PacMan(generator=g["AsciiGenerator"](configs.PACMAN_MAZE), time_limit=7))]
@@ -222,6 +224,7 @@ def jobs(tier, seed):
             js.append((f"{name}@default/struct", "checks.C01", "run_struct_only", {"name": name, "default": True}))
     js.append(("PacMan/kernel-player_step-wrap", "checks.C01", "run_pacman_wrap", {}))
     js.append(("constructor-options/python-int-scalars", "checks.C01", "run_int_options", {}))
+    js.append(("Sudoku/database-dtypes", "checks.C10", "run_sudoku_dtypes", {}))   # board bounds for databases of every integer dtype
     for name in ("RubiksCube", "SlidingTilePuzzle", "Sudoku", "BinPack", "FlatPack", "Knapsack", "Connector", "CVRP", "MMST", "MultiCVRP", "Sokoban", "TSP"):
         js.append((f"{name}/struct-reward-fns", "checks.C01", "run_struct_rewards", {"name": name}))
     return js
